@@ -1228,7 +1228,7 @@ func c35CheckCtl(w *vx.W, x c35CtlCase) {
 
 func TestVerif_C35(t *testing.T) {
 	vx.Run(t, "C35", func(c *vx.Ctx) {
-		c.Rule("stream part: frame sequences over {HEADERS(valid head), HEADERS(trailers), HEADERS(field section refused at its first byte, rest of the payload unread), DATA of 0/1/5 bytes, unknown types 0x21 / 0x40 / 0x1f*2^56+0x21, SETTINGS, GOAWAY, PUSH_PROMISE (thorough: + CANCEL_PUSH, MAX_PUSH_ID), HTTP/2-reserved types 0x02 0x09 (thorough: + 0x06 0x08)}: every sequence of length <= 2, every sequence of length 3 (thorough: and of length 4 over the quick alphabet) that starts with the head or with an unknown frame followed by the head; each with frame lengths encoded minimally and as 8-byte varints (quick: 8-byte only for sequences of <= 2 frames), and the stream FIN at EVERY byte offset of the encoded sequence; delivery: everything and FIN in one STREAM frame; for minimal encodings also with the last byte arriving together with FIN after the rest was consumed; sequences of length <= 2 also one byte per packet; played against the real server (request stream) and the real client (response stream of a RoundTrip) by a raw QUIC peer. The application reads the body with a 3-byte buffer up to the first error (io.EOF included) and stops; read-after-error: every one-STREAM-frame case of the shape (unknown|reserved)* head ... whose FIN lies at or behind the end of the head is ALSO run with the application issuing len(sequence)+1 further Reads after that first error, whatever they return, for every pair of buffer sizes from {1, 16} used in turn. over-read part: HEADERS frames whose field section ends inside a QPACK element (no byte at all; index continuation of an indexed field line; value-length continuation of a literal with name reference; thorough: + Required Insert Count continuation; Delta Base missing; name-length continuation of a literal with literal name) as message head and as trailers in the shapes O, U O, H O, H O D, H D O (thorough: 13 shapes, also 8-byte lengths), FIN at every offset from the end of that frame on, all delivery modes as above, read-after-error with the buffer sizes 1, 16 in turn (thorough: every pair as above), both sides; each case of this part runs in a child process (one per shard, restarted when it dies), so a panic on an implementation goroutine is reported like any other violation, signature panic:<implementation function nearest to the panic>. control part: stream type in {control, push, QPACK encoder, QPACK decoder, reserved 0x21, 2-byte unknown, truncated varint} x every sequence of <= 2 (thorough: 3) control frames from a 23-entry alphabet (SETTINGS variants incl. duplicate / reserved HTTP/2 identifiers / content running past the frame, DATA, HEADERS, GOAWAY, CANCEL_PUSH, MAX_PUSH_ID, PUSH_PROMISE, unknown, HTTP/2-reserved) x {open, FIN} and a duplicate stream of the type, against server and client. non-trivial = the case ran to quiescence and the delivered body bytes (ALL bytes the body ever returned, also after errors, must be DATA payload bytes in stream order), end-of-body error, stream reset code and connection close code were compared with the reference frame parser")
+		c.Rule("stream part: frame sequences over {HEADERS(valid head), HEADERS(trailers), HEADERS(field section refused at its first byte, rest of the payload unread), DATA of 0/1/5 bytes, unknown types 0x21 / 0x40 / 0x1f*2^56+0x21, SETTINGS, GOAWAY, PUSH_PROMISE (thorough: + CANCEL_PUSH, MAX_PUSH_ID), HTTP/2-reserved types 0x02 0x09 (thorough: + 0x06 0x08)}: every sequence of length <= 2, every sequence of length 3 (thorough: and of length 4 over the quick alphabet) that starts with the head or with an unknown frame followed by the head; each with frame lengths encoded minimally and as 8-byte varints (quick: 8-byte only for sequences of <= 2 frames), and the stream FIN at EVERY byte offset of the encoded sequence; delivery: everything and FIN in one STREAM frame; for minimal encodings also with the last byte arriving together with FIN after the rest was consumed; sequences of length <= 2 also one byte per packet; played against the real server (request stream) and the real client (response stream of a RoundTrip) by a raw QUIC peer. The application reads the body with a 3-byte buffer up to the first error (io.EOF included) and stops; read-after-error: every one-STREAM-frame case of the shape (unknown|reserved)* head ... whose FIN lies at or behind the end of the head (8-byte length encodings: sequences of <= 2 frames only) is ALSO run with the application issuing len(sequence)+1 further Reads after that first error, whatever they return, for every pair of buffer sizes from {1, 16} used in turn. over-read part: HEADERS frames whose field section ends inside a QPACK element (no byte at all; index continuation of an indexed field line; value-length continuation of a literal with name reference; thorough: + Required Insert Count continuation; Delta Base missing; name-length continuation of a literal with literal name) as message head and as trailers in the shapes O, U O, H O, H O D, H D O (thorough: 13 shapes, also 8-byte lengths), FIN at every offset from the end of that frame on, all delivery modes as above, read-after-error with the buffer sizes 1, 16 in turn (thorough: every pair as above), both sides; each case of this part runs in a child process (one per shard, restarted when it dies), so a panic on an implementation goroutine is reported like any other violation, signature panic:<implementation function nearest to the panic>. control part: stream type in {control, push, QPACK encoder, QPACK decoder, reserved 0x21, 2-byte unknown, truncated varint} x every sequence of <= 2 (thorough: 3) control frames from a 23-entry alphabet (SETTINGS variants incl. duplicate / reserved HTTP/2 identifiers / content running past the frame, DATA, HEADERS, GOAWAY, CANCEL_PUSH, MAX_PUSH_ID, PUSH_PROMISE, unknown, HTTP/2-reserved) x {open, FIN} and a duplicate stream of the type, against server and client. non-trivial = the case ran to quiescence and the delivered body bytes (ALL bytes the body ever returned, also after errors, must be DATA payload bytes in stream order), end-of-body error, stream reset code and connection close code were compared with the reference frame parser")
 		c.Assume("left open (recorded as outcomes, not judged): the error code used to refuse a message that does not start with HEADERS or contains a forbidden frame, HTTP/2-reserved frame types (skip or refuse), a frame *header* cut by FIN, FIN on a control stream, which of H3_FRAME_ERROR-carrying places reports a truncation (body Read error, RoundTrip error, stream reset code, connection close code all count); whether a body error is returned again by later Reads and whether DATA frames behind it are still delivered (the property only forbids non-DATA bytes); which error code a HEADERS frame that over-reads its limit produces (the QPACK layer turns the frame error into QPACK_DECOMPRESSION_FAILED: same root cause as the known truncated-HEADERS findings) - for these frames only the panic and body clauses are judged")
 		c.Assume("the QUIC layer delivers stream bytes and FIN faithfully (C19/C20); the in-memory network is loss-free")
 
@@ -1264,7 +1264,7 @@ func TestVerif_C35(t *testing.T) {
 							if !yield(x) {
 								return false
 							}
-							if headEnd >= 0 && fin >= headEnd {
+							if headEnd >= 0 && fin >= headEnd && !(len8 && len(seq) > 2) {
 								for _, a := range afterSchedules {
 									y := x
 									y.After = a
